@@ -170,6 +170,13 @@ class Ctx:
         return choice
 
 
+class AbsArr:
+    """an array tracked by shape only (contents abstracted): arithmetic on it yields another AbsArr"""
+
+    def __init__(self, shape=None):
+        self.shape = tuple(shape) if shape is not None else None
+
+
 class Return(Exception):
     def __init__(self, v):
         self.v = v
@@ -318,6 +325,8 @@ class Interp:
         return self.ev(sl, env)
 
     def binop(self, op, a, b):
+        if isinstance(a, AbsArr) or isinstance(b, AbsArr):
+            return AbsArr(a.shape if isinstance(a, AbsArr) else b.shape)
         if isinstance(op, ast.Div):
             if isinstance(a, (int, np.integer)) and isinstance(b, (int, np.integer)) and not isinstance(a, bool):
                 return sp.Rational(int(a), int(b)) if int(a) % int(b) else int(a) // int(b)
@@ -327,6 +336,8 @@ class Interp:
             r = sp.powdenest(sp.Pow(sp.sympify(a), sp.sympify(b)), force=False)
             r = sp.simplify(r) if (isinstance(b, sp.Rational) and not b.is_Integer) else r
             return int(r) if r.is_Integer else r
+        if isinstance(a, AbsArr) or isinstance(b, AbsArr):
+            return AbsArr(a.shape if isinstance(a, AbsArr) else b.shape)
         f = {
             ast.Add: operator.add,
             ast.Sub: operator.sub,
@@ -339,6 +350,8 @@ class Interp:
         }.get(type(op))
         if f is None:
             raise Unsupported("operator %s" % type(op).__name__)
+        if isinstance(a, AbsArr) or isinstance(b, AbsArr):
+            return AbsArr(a.shape if isinstance(a, AbsArr) else b.shape)
         if isinstance(a, (SymArray,)) or isinstance(b, (SymArray,)):
             raise Unsupported("arithmetic on a symbolic-shape array")
         if isinstance(op, (ast.FloorDiv, ast.Mod)) and (is_sym(a) or is_sym(b)):
@@ -441,6 +454,12 @@ class Interp:
                 if e.attr == "size":
                     return o.size()
                 return ("method", o, e.attr)
+            if isinstance(o, AbsArr):
+                if e.attr == "shape":
+                    if o.shape is None:
+                        raise Unsupported("shape of an abstracted array")
+                    return o.shape
+                raise Unsupported("attribute %s of an abstracted array" % e.attr)
             if isinstance(o, np.ndarray):
                 if e.attr in ("astype", "tolist", "flatten", "copy", "reshape", "transpose"):
                     return ("npmethod", o, e.attr)
@@ -627,7 +646,7 @@ class Interp:
             a = args[0]
             if isinstance(a, SymList):
                 return SymArray((a.n,), lambda idx: a.elem(as_num(idx[0], a.n)), a.kind)
-            if isinstance(a, (SymArray,)):
+            if isinstance(a, (SymArray, AbsArr)):
                 return a
             if isinstance(a, range):
                 a = list(a)
@@ -637,6 +656,24 @@ class Interp:
             if isinstance(a, (SymArray, np.ndarray)):
                 return a
             return np.array(a, dtype=object) if has_sym(a) else np.asarray(a)
+        if q in ("np.zeros", "np.empty"):
+            shp = args[0]
+            if has_sym(shp if isinstance(shp, (tuple, list)) else [shp]):
+                return AbsArr(tuple(shp) if isinstance(shp, (tuple, list)) else (shp,))
+            return np.zeros(shp if not isinstance(shp, tuple) else tuple(int(x) for x in shp))
+        if q == "np.eye":
+            n = args[0]
+            if is_sym(n):
+                return AbsArr((n, n))
+            return np.eye(int(n))
+        if q in ("np.linalg.qr", "np.linalg.svd", "np.linalg.eigh"):
+            return AbsArr(None)
+        if q == "np.arange":
+            return np.arange(*[int(a) for a in args])
+        if q == "math.factorial":
+            import math
+
+            return math.factorial(int(args[0]))
         if q == "np.ones":
             shp = args[0]
             if isinstance(shp, sp.Expr) and is_sym(shp):
